@@ -14,8 +14,8 @@ ASSUMPTIONS = [
 ]
 
 FLAGS = list(itertools.product((True, False), (False, True), (False, True)))  # log, power, energy
-DTYPES = ["float64", "float32", "float16", "longdouble"]
-TOL = {"float64": 1e-8, "longdouble": 1e-8, "float32": 1e-4, "float16": 2e-2}
+DTYPES = ["float64", "float32", "float16", "longdouble", ">f8", ">f4"]
+TOL = {"float64": 1e-8, "longdouble": 1e-8, "float32": 1e-4, "float16": 2e-2, ">f8": 1e-8, ">f4": 1e-4}
 
 
 def _lengths(S, M, D):
@@ -37,6 +37,13 @@ def _one(c, bank, N, dtype, seed, variant="generic"):
     x64 = sig.signal(seed, N) if variant == "generic" else np.zeros(N)
     x = x64.astype(dtype)
     comp = cfg.make_computer(c)
+    route = c.get("route")
+    if route == "deepcopy":
+        import copy
+        comp = copy.deepcopy(comp)      # a copied computer is still that computer
+    elif route == "pickle":
+        import pickle
+        comp = pickle.loads(pickle.dumps(comp))
     old_floor = config.LOG_FLOOR_VALUE
     try:
         if floor is not None:
@@ -53,13 +60,17 @@ def _one(c, bank, N, dtype, seed, variant="generic"):
     tags = dict(bank=type(bank).__name__, style=c["style"], dtype=str(dtype))
     if floor is not None:
         tags["floor_changed_after_construction"] = True
+    if route:
+        tags["route"] = route
     case = dict(config=c, N=N, dtype=str(dtype), signal=variant)
     if r[0] != "ok":
         return [core.violation(dict(tags, what="exception", exc=r[1]),
                                "compute_full(N=%d, %s) raised %s: %s" % (N, dtype, r[1], r[2]), case)], want
     got = r[1]
     viol = []
-    if got.dtype != np.dtype(dtype):
+    # "the result has that dtype": kind and precision; the byte ORDER of a non-native input is not
+    # demanded back (numpy's own concatenate returns native order) - demanding it was a false alarm
+    if got.dtype.newbyteorder("=") != np.dtype(dtype).newbyteorder("="):
         viol.append(core.violation(dict(tags, what="dtype"),
                                    "input %s, result %s" % (dtype, got.dtype), case))
     if got.shape != want.shape:
@@ -104,6 +115,12 @@ def _eval(pt, seed):
                 viol.extend(v)
                 if want.shape[0]:
                     nontriv += 1
+        if dtype == "float64":
+            # the computer handed over as a deep copy / through pickle (how DataLoader workers get it)
+            for route in ("deepcopy", "pickle"):
+                evals += 1
+                v, want = _one(dict(c, route=route), bank, M + S, dtype, seed, "generic")
+                viol.extend(v)
         if use_log and dtype == "float64":
             # LOG_FLOOR_VALUE changed after construction (larger and smaller than the default)
             for floor in (1e-2, 1e-9):
@@ -163,7 +180,14 @@ def _history(pt, seed):
     Mb = ref.geometry(cfg.make_bank(cb["bank"]), cb["S"], cb["style"], cb["pad"])
     plan = [("A", 1), ("A", Ma[0] + 3 * ca["S"]), ("B", max(cb["S"] // 2, 1)), ("B", Mb[0] + 3 * cb["S"]),
             ("A", Ma[3] + 2), ("B", 0), ("B", Mb[3] + 2)]
+    # a call with a non-float (int16) array in between: whatever it does (the documented answer is a
+    # ValueError), the NEXT call with a valid signal on the same object must still equal the definition
+    plan = plan[:4] + [("A!", 9)] + plan[4:5] + [("B!", 9)] + plan[5:]
     for step, (who, N) in enumerate(plan):
+        if who.endswith("!"):
+            comp = A if who[0] == "A" else B
+            computers.call(comp.compute_full, np.arange(N, dtype=np.int16))
+            continue
         comp, c = (A, ca) if who == "A" else (B, cb)
         bank = cfg.make_bank(c["bank"])
         win = cfg.make_window(c["window"])
@@ -176,6 +200,7 @@ def _history(pt, seed):
         nt += int(want.shape[0] > 0 and step > 0)
         tags = dict(what="history", who=who, first_call=bool(step == 0),
                     after_short_utterance=bool(step in (1, 3)),
+                    after_refused_call=bool(step > 0 and plan[step - 1][0].endswith("!")),
                     same_window_class=bool(type(cfg.make_window(ca["window"])) is type(cfg.make_window(cb["window"]))
                                            and ca["window"] != cb["window"]))
         case = dict(pair=[ca, cb])
